@@ -62,7 +62,8 @@ Section Phases.
 
   Record J (w : world) : Prop := {
     j_tx : forall i T, txs w !! i = Some T -> tx_wf T;
-    j_back : forall k P, props w !! k = Some P -> backed (txs w) k P }.
+    j_back : forall k P, props w !! k = Some P -> backed (txs w) k P;
+    j_fresh : forall i, next_index w <= i -> txs w !! i = None }.
 
   (** * Phases of a transaction only grow *)
   Definition growsb (v c ab a v' c' ab' a' : option ph) : bool :=
@@ -99,18 +100,21 @@ Section Phases.
   Lemma J_put_tx (w : world) i T T' :
     J w -> txs w !! i = Some T -> tx_wf T' -> tx_grows T T' -> J (apply_eff w (EPutTx i T')).
   Proof.
-    intros [Htx Hb] HT Hwf Hg. split; cbn.
+    intros [Htx Hb Hf] HT Hwf Hg. split; cbn.
     - intros j T0. destruct (decide (i = j)) as [->|Hne].
       + rewrite lookup_insert. intros [= <-]. exact Hwf.
       + rewrite lookup_insert_ne by exact Hne. apply Htx.
     - intros k P HP. eapply backed_grows; eauto.
+    - intros j Hj. destruct (decide (i = j)) as [->|Hne].
+      + rewrite (Hf _ Hj) in HT. discriminate.
+      + rewrite lookup_insert_ne by exact Hne. apply Hf. exact Hj.
   Qed.
 
   (* writing a proposal record whose phases are backed *)
   Lemma J_put_prop (w : world) k P' :
     J w -> backed (txs w) k P' -> J (apply_eff w (EPutProp k P')).
   Proof.
-    intros [Htx Hb] Hb'. split; cbn; [exact Htx|].
+    intros [Htx Hb Hf] Hb'. split; cbn; [exact Htx| |exact Hf].
     intros k0 P0. destruct (decide (k = k0)) as [->|Hne].
     - rewrite lookup_insert. intros [= <-]. exact Hb'.
     - rewrite lookup_insert_ne by exact Hne. apply Hb.
@@ -121,7 +125,7 @@ Section Phases.
     J (apply_eff w (ECreateProp k P')).
   Proof.
     intros HJ H1 H2 H3 H4. cbn. destruct (props w !! k) eqn:Hk; [exact HJ|].
-    destruct HJ as [Htx Hb]. split; cbn; [exact Htx|].
+    destruct HJ as [Htx Hb Hf]. split; cbn; [exact Htx| |exact Hf].
     intros k0 P0. destruct (decide (k = k0)) as [->|Hne].
     - rewrite lookup_insert. intros [= <-]. intros [Hs|[Hs|[Hs|Hs]]]; rewrite ?H1, ?H2, ?H3, ?H4 in Hs; destruct Hs; discriminate.
     - rewrite lookup_insert_ne by exact Hne. apply Hb.
@@ -133,10 +137,10 @@ Section Phases.
 
   Lemma J_neutral (w : world) e : tp_neutral e -> J w -> J (apply_eff w e).
   Proof.
-    intros Hn [Htx Hb].
+    intros Hn [Htx Hb Hf].
     assert (Ht : txs (apply_eff w e) = txs w) by (rewrite txs_apply_eff; destruct e; try reflexivity; destruct Hn).
     assert (Hp : props (apply_eff w e) = props w) by (rewrite props_apply_eff; destruct e; try reflexivity; destruct Hn).
-    split; rewrite ?Ht, ?Hp; assumption.
+    split; rewrite ?Ht, ?Hp, ?next_index_apply_eff; assumption.
   Qed.
 
   (** * The scan helpers *)
@@ -309,5 +313,152 @@ Section Phases.
              ++ apply chain1. apply (J_put_tx w i T); auto; solve_wf_on T.
           -- apply chain1. apply (J_put_tx w i T); auto; solve_wf_on T.
     - apply gate_J; auto; solve_wf_on T.
+  Qed.
+
+  (** * The other reconcilers *)
+  Definition prop_ok (w : world) (e : eff) : Prop :=
+    tp_neutral e \/ exists k P', e = EPutProp k P' /\ backed (txs w) k P'.
+
+  Lemma chain_props (effs : list eff) : forall w : world, J w -> Forall (prop_ok w) effs -> chain dev_apply d_empty J w effs.
+  Proof.
+    induction effs as [|e r IH]; intros w HJ Hf; [exact I|].
+    inversion Hf as [|? ? He Hr]; subst. cbn.
+    assert (HJ' : J (apply_eff w e)).
+    { destruct He as [Hn|(k & P' & -> & Hb)]; [apply J_neutral; assumption|apply J_put_prop; assumption]. }
+    split; [exact HJ'|]. apply IH; [exact HJ'|].
+    assert (Ht : txs (apply_eff w e) = txs w).
+    { rewrite txs_apply_eff. destruct He as [Hn|(k & P' & -> & Hb)]; [destruct e; try reflexivity; destruct Hn|reflexivity]. }
+    eapply Forall_impl; [exact Hr|]. intros e' [Hn|(k & P' & -> & Hb)]; [left; exact Hn|right].
+    exists k, P'. split; [reflexivity|]. rewrite Ht. exact Hb.
+  Qed.
+
+  Ltac prop_ok_tac HJ :=
+    repeat first
+      [ apply List.Forall_nil
+      | apply List.Forall_cons; [ first [ left; exact I
+                                   | right; eexists _, _; split; [reflexivity|];
+                                     eapply backed_same; [ eapply (j_back _ HJ); eassumption | .. ];
+                                     cbn; intros Hs; first [ exact Hs | eexists; eassumption | idtac ] ] | ] ].
+
+  Lemma rec_prop_J (o : oracle) (w : world) k : J w -> chain dev_apply d_empty J w (fst (rec_prop o w k)).
+  Proof.
+    intros HJ. apply chain_props; [exact HJ|].
+    unfold Proto2.rec_prop, Proto2.vfail, Proto2.upd_status. destruct k as [t i].
+    destruct (props w !! (t, i)) as [P|] eqn:HP; [|apply List.Forall_nil].
+    destruct_matches; cbn [fst app]; prop_ok_tac HJ.
+    (* the linking step: the effect is chosen by a nested match *)
+    match goal with H : _ = Some ?e |- Forall _ [?e] =>
+      repeat match type of H with context [match ?x with _ => _ end] => destruct x eqn:? end;
+      try discriminate H; injection H as <-; prop_ok_tac HJ
+    end.
+  Qed.
+
+  Lemma neutral_chain (effs : list eff) (w : world) : J w -> Forall tp_neutral effs -> chain dev_apply d_empty J w effs.
+  Proof.
+    intros HJ Hf. apply chain_props; [exact HJ|]. eapply Forall_impl; [exact Hf|]. intros e He. left. exact He.
+  Qed.
+
+  Lemma resync_effs_neutral t m term a reqs :
+    Forall tp_neutral (fst (@resync_effs V Ch Req t m term a reqs)).
+  Proof.
+    induction reqs as [|[r|] rest IH]; cbn; try apply List.Forall_nil.
+    destruct a; cbn; try (apply List.Forall_cons; [exact I|apply List.Forall_nil]).
+    destruct (resync_effs t m term COk rest) as [es res] eqn:E. cbn in *. apply List.Forall_cons; [exact I|exact IH].
+  Qed.
+
+  Lemma rec_cfg_J (o : oracle) (w : world) t : J w -> chain dev_apply d_empty J w (fst (rec_cfg o w t)).
+  Proof.
+    intros HJ. apply neutral_chain; [exact HJ|].
+    unfold Proto2.rec_cfg, Proto2.upd_status.
+    destruct_matches; cbn [fst app]; repeat first [apply List.Forall_nil | apply List.Forall_cons; [exact I|]].
+    all: match goal with E : resync_effs _ _ _ _ _ = (?es, _) |- _ =>
+           pose proof (resync_effs_neutral t n (c_term c) (dev_answer d_empty w t (c_term c) o) (resync_payload (aview overlay c))) as Hn;
+           rewrite E in Hn; cbn in Hn end.
+    all: first [ exact Hn
+               | apply Forall_app_2; [exact Hn|]; repeat first [apply List.Forall_nil | apply List.Forall_cons; [exact I|]] ].
+  Qed.
+
+  Lemma rec_master_J (o : oracle) (w : world) t : J w -> chain dev_apply d_empty J w (fst (rec_master o w t)).
+  Proof.
+    intros HJ. apply neutral_chain; [exact HJ|].
+    unfold Proto2.rec_master, Proto2.upd_status.
+    destruct_matches; cbn [fst app]; repeat first [apply List.Forall_nil | apply List.Forall_cons; [exact I|]].
+  Qed.
+
+  Lemma rec_conn_J (w : world) c : J w -> chain dev_apply d_empty J w (fst (rec_conn w c)).
+  Proof.
+    intros HJ. apply neutral_chain; [exact HJ|].
+    unfold Proto2.rec_conn. destruct_matches; cbn [fst]; repeat first [apply List.Forall_nil | apply List.Forall_cons; [exact I|]].
+  Qed.
+
+  (** * Every step preserves J; J holds in every reachable world *)
+  Lemma J_env (w w' : world) :
+    txs w' = txs w -> props w' = props w -> next_index w' = next_index w -> J w -> J w'.
+  Proof. intros Ht Hp Hn [Htx Hb Hf]. split; rewrite ?Ht, ?Hp, ?Hn; assumption. Qed.
+
+  Lemma J_new_tx (w : world) (T : txn) :
+    J w -> tx_wf T ->
+    J (w <| txs := <[next_index w := T]> (txs w) |> <| next_index := next_index w + 1 |>).
+  Proof.
+    intros [Htx Hb Hf] Hwf. split; cbn.
+    - intros j T0. destruct (decide (next_index w = j)) as [<-|Hne].
+      + rewrite lookup_insert. intros [= <-]. exact Hwf.
+      + rewrite lookup_insert_ne by exact Hne. apply Htx.
+    - intros k P HP Hs. destruct (Hb k P HP Hs) as (T0 & HT0 & Hr). exists T0. split; [|exact Hr].
+      destruct (decide (next_index w = k.2)) as [He|Hne].
+      + rewrite <- He in HT0. rewrite Hf in HT0 by lia. discriminate.
+      + rewrite lookup_insert_ne by exact Hne. exact HT0.
+    - intros j Hj. rewrite lookup_insert_ne by lia. apply Hf. lia.
+  Qed.
+
+  Lemma step_J (w : world) l : J w -> J (step w l).
+  Proof.
+    intros HJ. destruct l as [chs sy se|ri|c k o|c t|c|c t|t p|t|t]; cbn [Proto2.step].
+    - apply J_new_tx; [exact HJ|reflexivity].
+    - apply J_new_tx; [exact HJ|reflexivity].
+    - apply chain_prefix; [exact HJ|]. destruct c as [i|kk|t|t|cc]; cbn [Proto2.reconcile].
+      + apply rec_tx_J. exact HJ.
+      + apply rec_prop_J. exact HJ.
+      + apply rec_cfg_J. exact HJ.
+      + apply rec_master_J. exact HJ.
+      + apply rec_conn_J. exact HJ.
+    - destruct (conns w !! c); [exact HJ|]. eapply J_env; [..|exact HJ]; reflexivity.
+    - eapply J_env; [..|exact HJ]; reflexivity.
+    - destruct (rels w !! c); [exact HJ|]. eapply J_env; [..|exact HJ]; reflexivity.
+    - eapply J_env; [..|exact HJ]; reflexivity.
+    - eapply J_env; [..|exact HJ]; reflexivity.
+    - eapply J_env; [..|exact HJ]; reflexivity.
+  Qed.
+
+  Lemma J_init : J (@init V Ch Req D).
+  Proof.
+    split; cbn.
+    - intros i T H. rewrite lookup_empty in H. discriminate.
+    - intros k P H. rewrite lookup_empty in H. discriminate.
+    - intros i _. apply lookup_empty.
+  Qed.
+
+  Theorem J_reach (w : world) : reach w -> J w.
+  Proof.
+    apply (reach_ind candidate candidate_rb rollback_of overlay commit_merge payload record_applied touched restore
+                     resync_payload doc_ok dev_apply stamp v_empty d_empty ch_empty J).
+    - exact J_init.
+    - intros w0 l _ HJ. apply step_J. exact HJ.
+  Qed.
+
+  (** * Corollaries *)
+  (* C01: no transaction ever has a proposal in its Commit phase and another one in its Abort phase *)
+  Theorem no_mixed_commit_abort (w : world) i t t' (P Q : prop) :
+    reach w -> props w !! (t, i) = Some P -> props w !! (t', i) = Some Q ->
+    ~ (is_Some (p_commit P) /\ is_Some (p_abort Q)).
+  Proof.
+    intros Hr HP HQ [Hc Ha]. pose proof (J_reach w Hr) as HJ.
+    destruct (j_back _ HJ _ _ HP) as (T & HT & _ & Hc' & _); [tauto|].
+    destruct (j_back _ HJ _ _ HQ) as (T' & HT' & _ & _ & Ha' & _); [tauto|].
+    cbn in HT, HT'. rewrite HT in HT'. injection HT' as <-.
+    pose proof (j_tx _ HJ _ _ HT) as Hwf. unfold tx_wf, wfb, imp in Hwf.
+    apply some_is_Some in Hc'; [|exact Hc]. apply some_is_Some in Ha'; [|exact Ha].
+    unfold some in *. destruct (t_commit T), (t_abort T); cbn in *; try discriminate.
+    repeat (apply andb_prop in Hwf; destruct Hwf as [Hwf ?]). discriminate.
   Qed.
 End Phases.
